@@ -11,8 +11,33 @@ No new arithmetic: an operator goes through the scaled layer (exponent alignment
 which for an elastic representation adds digits), the overflow layer (whose digit test is false
 for `+ - *` because the elastic result is wider, and whose division test is false because the
 elastic range is symmetric), the elastic layer (policy, storage, operand conversion) and the
-rounding layer (division).  The storage is modelled as a two's-complement integer of the width
-`set_digits` selects (C10 shows wide_integer is exactly that).
+rounding layer (division).
+
+## Narrowest type and storage (section "typed static numbers")
+
+The narrowest type `N` is a parameter of every operand (`TNum`): signed or unsigned, any width.
+The elastic layer's narrowest type is `rounding_integer<wide_integer<digits N, N>, R>`, so
+* the storage of `D` digits is the representation of `wide_integer<max(digits N, D), N>`
+  (`wide_tag/definition.h`): the narrowest built-in integer of `N`'s signedness with that many digits, and
+  beyond the widest built-in (127 / 128 digits) the multi-word `uintwide_t` of
+  `ceil((digits + signed) / width N)` limbs of `width N` bits (`wide-integer.h`, `make_uintwide`) — `storage`.
+  **This rests on C10**: property C10 (`CnlProperties/C10.lean`, format `Wide.storage` of `CnlModel/Wide.lean`)
+  proves that such a multi-word integer is an `N`-bit two's-complement integer, `N` = limb width × limb count;
+  the model therefore treats it as the two's-complement `IntTy` of that width (`CnlModel/CInt.lean` is written
+  for any `bits`; integral promotion leaves every type of 32 bits or more alone, so it never applies to
+  multi-word storage).  `storage_eq_wide` (CnlProofs/Static.lean) ties `storage` to `Wide.storage`.
+* the result narrowest of a binary operator (`elastic_tag/overloads.h`) has the width of the wider operand
+  narrowest and the signedness of the policy (no integral promotion: the representation is a `wide_integer`);
+  unary minus yields the signed narrowest; `scale<k>` keeps the narrowest; `<< constant<k>` adopts the signedness
+  of the promoted storage (`elastic_integer/custom_operator.h`).
+* a built-in operand `T` of a binary operator / comparison is turned by `from_value` into
+  `elastic_integer<digits T, set_width_t<T, width N>>` (`elastic_integer/from_value.h`): `T`'s own signedness at
+  the width of the static operand's narrowest (`ofBuiltin`).  Against a static_number with a negative exponent
+  the scaled layer first scales the built-in operand **in its own (promoted) type** (`scaleInt`): that product can
+  overflow — the open finding `C11.builtin_operand_scaled_in_its_own_type`.
+
+The functions `binOp`, `neg`, `cmp`, `convert`, the shifts and the histories of `StaticExpr.lean` are the instances
+for `Narrowest = int` (`narrowest`), any digit count.
 
 ## Shifts (section "shifts" below)
 
@@ -29,9 +54,9 @@ rounding layer (division).  The storage is modelled as a two's-complement intege
   The result has the operand's digits and exponent.  A negative run-time count reaches the built-in
   shift (undefined, as for built-in operands; outside the property's quantifier, C06/C07 likewise).
 * **`cnl::constant<k>` count on a bare static_integer**: the same overflow-layer operator with
-  `Rhs = constant<k>`; the result type of `<<` is `static_integer<D + k>` (`Elastic.shlConst`), so
+  `Rhs = constant<k>`; the result type of `<<` is `static_integer<D + k>` (`elShlConst`), so
   `positive_digits = D + k` and neither test can fire; `>>` yields `static_integer<D − k>`
-  (`Elastic.shrConst`).  `k < 0` compiles and executes a built-in shift by a negative count; `k > D`
+  (`elShrConst`).  `k < 0` compiles and executes a built-in shift by a negative count; `k > D`
   on `>>` compiles to a type with a negative digit count: both are outside the quantifier.
 * **`cnl::constant<k>` count on a static_number** (`scaled_integer/operators.h`): only the exponent
   changes, for every `k` of either sign.
@@ -50,15 +75,122 @@ structure SNum where
   value : Int
 deriving Repr, DecidableEq
 
-/-- the instantiation's tags; the narrowest type is `int` (signed 32-bit) -/
+/-- the instantiation's tags -/
 structure Cfg where
   mode : RdMode
   tag : OvTag
 deriving Repr, DecidableEq
 
+/-- the default narrowest type `int` -/
 def narrowest : IntTy := i32
 
-def toE (x : SNum) : Elastic.ENum := ⟨x.digits, narrowest, x.value⟩
+/-! ## typed static numbers: the narrowest type is part of the operand -/
+
+/-- a static number together with the narrowest type of its instantiation -/
+structure TNum where
+  n : IntTy
+  x : SNum
+deriving Repr, DecidableEq
+
+/-- `wide_tag<max(digits N, D), N>::rep`: the storage of `D` digits over the narrowest type `N` — the built-in
+integer `set_digits` selects, or (beyond the widest built-in) the multi-word two's-complement integer of
+`ceil((digits + signed) / width N)` limbs of `width N` bits (C10) -/
+def storage (n : IntTy) (digits : Nat) : Option IntTy :=
+  match Elastic.repTy digits n with
+  | some t => some t
+  | none =>
+    if n.bits = 0 then none
+    else
+      let minWidth := max n.digits digits + (if n.signed then 1 else 0)
+      some ⟨n.bits * ((minWidth + n.bits - 1) / n.bits), n.signed⟩
+
+def TNum.toE (t : TNum) : Elastic.ENum := ⟨t.x.digits, t.n, t.x.value⟩
+def ofE (z : Elastic.ENum) (e : Int) : TNum := ⟨z.narrowest, ⟨z.digits, e, z.value⟩⟩
+
+/-- "in range" of a typed static number: `[-(2^D − 1), 2^D − 1]`, non-negative under an unsigned narrowest type -/
+def TNum.InRange (t : TNum) : Prop := t.toE.InRange
+instance (t : TNum) : Decidable t.InRange := by unfold TNum.InRange; exact inferInstance
+
+/-- the elastic layer's binary operator (`elastic_tag/custom_operator.h`) over the storage rule of a
+`wide_integer` narrowest; `rop` is the operator of the representation (the rounding layer's) -/
+def elBin (rop : BinOp → TV → TV → Res TV) (op : BinOp) (x y : Elastic.ENum) : Res Elastic.ENum :=
+  match Elastic.policy op x.digits x.narrowest.signed y.digits y.narrowest.signed with
+  | none => .ill "no elastic policy for this operator"
+  | some (d, sg) =>
+    -- tag narrowest: signedness from the policy, width of the wider narrowest
+    let n : IntTy := ⟨max x.narrowest.bits y.narrowest.bits, sg⟩
+    match storage n d with
+    | none => .ill "no storage for the result digits"
+    | some resultRep =>
+      -- operate in a type wide enough for both operands as well as the result
+      match storage n (max d (max x.digits y.digits)) with
+      | none => .ill "no storage for the operand digits"
+      | some operandRep =>
+        let a : TV := convert operandRep (operandRep, x.value)
+        let b : TV := convert operandRep (operandRep, y.value)
+        match rop op a b with
+        | .ok v => .ok ⟨d, n, resultRep.wrap v.2⟩
+        | .ub k => .ub k
+        | _ => .ill "unexpected"
+
+/-- unary minus: `elastic_integer<D, signed narrowest>` -/
+def elNegE (x : Elastic.ENum) : Res Elastic.ENum :=
+  let n : IntTy := ⟨x.narrowest.bits, true⟩
+  match storage n x.digits with
+  | none => .ill "no storage for the digits"
+  | some rep =>
+    match cNeg (convert rep (rep, x.value)) with
+    | .ok v => .ok ⟨x.digits, n, rep.wrap v.2⟩
+    | .ub k => .ub k
+    | _ => .ill "unexpected"
+
+/-- `x << constant<k>`: `k` more digits -/
+def elShlConst (x : Elastic.ENum) (k : Nat) : Res Elastic.ENum :=
+  match storage x.narrowest (x.digits + k) with
+  | none => .ill "no storage for the digits"
+  | some rep =>
+    match cBin .shl (convert rep (rep, x.value)) (i32, (k : Int)) with
+    | .ok v =>
+      -- `from_rep` adopts the signedness of the (promoted) shifted representation
+      let n : IntTy := ⟨x.narrowest.bits, v.1.signed⟩
+      match storage n (x.digits + k) with
+      | some rep' => .ok ⟨x.digits + k, n, rep'.wrap v.2⟩
+      | none => .ill "no storage for the digits"
+    | .ub u => .ub u
+    | _ => .ill "unexpected"
+
+/-- `x >> constant<k>`: `k` fewer digits -/
+def elShrConst (x : Elastic.ENum) (k : Nat) : Res Elastic.ENum :=
+  match storage x.narrowest x.digits with
+  | some rep =>
+    match cBin .shr (convert rep (rep, x.value)) (i32, (k : Int)) with
+    | .ok v =>
+      let n : IntTy := ⟨x.narrowest.bits, v.1.signed⟩
+      match storage n (x.digits - k) with
+      | some rep'' => .ok ⟨x.digits - k, n, rep''.wrap v.2⟩
+      | none => .ill "no storage for the digits"
+    | .ub u => .ub u
+    | _ => .ill "unexpected"
+  | none => .ill "no storage for the digits"
+
+/-- `scale<k, 2>` (`elastic_integer/scale.h`, `k ≥ 0`): `elastic_integer<D + k, N>` — the narrowest type is kept —
+holding the representation times `2^k`, computed in the result's storage -/
+def elScaleUp (x : Elastic.ENum) (k : Nat) : Res Elastic.ENum :=
+  match storage x.narrowest (x.digits + k) with
+  | none => .ill "no storage for the digits"
+  | some rrep =>
+    match cBin .mul (convert rrep (rrep, x.value)) (rrep, 2^k) with
+    | .ok v => .ok ⟨x.digits + k, x.narrowest, rrep.wrap v.2⟩
+    | .ub u => .ub u
+    | _ => .ill "unexpected"
+
+/-- comparison: both operands are converted to the common elastic type, then the representations are compared -/
+def elCmp (op : CmpOp) (x y : Elastic.ENum) : Res Bool :=
+  let s := x.narrowest.signed || y.narrowest.signed
+  let nc : IntTy := ⟨max x.narrowest.bits y.narrowest.bits, s⟩
+  match storage nc (max x.digits y.digits) with
+  | none => .ill "no storage for the digits"
+  | some rep => .ok (cCmp op (convert rep (rep, x.value)) (convert rep (rep, y.value)))
 
 /-- the representation operator under the rounding tag, on storage-typed values -/
 def repOp (c : Cfg) (op : BinOp) (a b : TV) : Res TV :=
@@ -73,46 +205,60 @@ def repOp (c : Cfg) (op : BinOp) (a b : TV) : Res TV :=
   | .diverges => .diverges
   | .ill m => .ill m
 
-/-- `cnl::scale<k, 2>` on a static_integer (`k ≥ 0`): `k` more digits, value times `2^k` -/
-def scaleUp (x : SNum) (k : Nat) : Res SNum :=
-  if k = 0 then .ok x else
-  match Elastic.shlConst (toE x) k with
-  | .ok z => .ok ⟨z.digits, x.exp - k, z.value⟩
-  | .ub u => .ub u
-  | _ => .ill "digits exceed the widest integer"
+/-- `cnl::scale<k, 2>` on a static number (`k ≥ 0`): `k` more digits, value times `2^k`, same narrowest -/
+def scaleUpT (t : TNum) (k : Nat) : Res TNum :=
+  if k = 0 then .ok t else
+  (elScaleUp t.toE k).map (fun z => ofE z (t.x.exp - k))
 
-/-- binary arithmetic on two static numbers -/
-def binOp (c : Cfg) (op : BinOp) (x y : SNum) : Res SNum :=
+/-- binary arithmetic on two typed static numbers -/
+def binOpT (c : Cfg) (op : BinOp) (s t : TNum) : Res TNum :=
   match op with
   | .add | .sub => do
-    let e := min x.exp y.exp
-    let a ← scaleUp x (x.exp - e).toNat
-    let b ← scaleUp y (y.exp - e).toNat
-    let z ← Elastic.binOpWith (repOp c) op (toE a) (toE b)
-    pure ⟨z.digits, e, z.value⟩
+    let e := min s.x.exp t.x.exp
+    let a ← scaleUpT s (s.x.exp - e).toNat
+    let b ← scaleUpT t (t.x.exp - e).toNat
+    let z ← elBin (repOp c) op a.toE b.toE
+    pure (ofE z e)
   | .mul => do
-    let z ← Elastic.binOpWith (repOp c) op (toE x) (toE y)
-    pure ⟨z.digits, x.exp + y.exp, z.value⟩
+    let z ← elBin (repOp c) op s.toE t.toE
+    pure (ofE z (s.x.exp + t.x.exp))
   | .div => do
-    let z ← Elastic.binOpWith (repOp c) op (toE x) (toE y)
-    pure ⟨z.digits, x.exp - y.exp, z.value⟩
+    let z ← elBin (repOp c) op s.toE t.toE
+    pure (ofE z (s.x.exp - t.x.exp))
   | _ => .ill "operator outside the static model"
 
-def neg (x : SNum) : Res SNum :=
-  match Elastic.neg (toE x) with
-  | .ok z => .ok ⟨z.digits, x.exp, z.value⟩
-  | .ub u => .ub u
-  | _ => .ill "digits exceed the widest integer"
+def negT (t : TNum) : Res TNum := (elNegE t.toE).map (fun z => ofE z t.x.exp)
 
 /-- comparison: alignment to the smaller exponent (wider elastic type), then by value -/
-def cmp (op : CmpOp) (x y : SNum) : Res Bool := do
-  let e := min x.exp y.exp
-  let a ← scaleUp x (x.exp - e).toNat
-  let b ← scaleUp y (y.exp - e).toNat
-  Elastic.cmp op (toE a) (toE b)
+def cmpT (op : CmpOp) (s t : TNum) : Res Bool := do
+  let e := min s.x.exp t.x.exp
+  let a ← scaleUpT s (s.x.exp - e).toNat
+  let b ← scaleUpT t (t.x.exp - e).toNat
+  elCmp op a.toE b.toE
 
-/-- the overflow-checked conversion of an elastic value into `D` digits: flagged iff the value
-is outside `[-(2^D - 1), 2^D - 1]`, then the tag reacts (saturation to the declared limits) -/
+/-- the overflow-checked conversion of an elastic value into `D` digits of the given signedness: flagged iff the
+value is outside `[-(2^D − 1), 2^D − 1]` (unsigned: `[0, 2^D − 1]`), then the tag reacts (saturation to the
+declared limits) -/
+def narrowTo (c : Cfg) (signed : Bool) (D : Nat) (v : Int) : Res Int :=
+  let hi : Int := 2^D - 1
+  let lo : Int := if signed then -hi else 0
+  if v > hi then
+    (match c.tag with
+     | .sat => .ok hi
+     | .thr => .throws true
+     | .trp => .trap true
+     | .und => .unreachable "positive overflow"
+     | .nat => .ill "native tag: not modelled")
+  else if v < lo then
+    (match c.tag with
+     | .sat => .ok lo
+     | .thr => .throws false
+     | .trp => .trap false
+     | .und => .unreachable "negative overflow"
+     | .nat => .ill "native tag: not modelled")
+  else .ok v
+
+/-- the same into the symmetric range of a signed narrowest type -/
 def narrowDigits (c : Cfg) (D : Nat) (v : Int) : Res Int :=
   let hi : Int := 2^D - 1
   if v > hi then
@@ -131,34 +277,175 @@ def narrowDigits (c : Cfg) (D : Nat) (v : Int) : Res Int :=
      | .nat => .ill "native tag: not modelled")
   else .ok v
 
-/-- conversion / assignment to `static_number<D, E>`: exact rescaling when `E ≤ x.exp`, otherwise
+/-- the tag's reaction to a detected overflow of a result with `D` digits of the given signedness -/
+def reactTo (tag : OvTag) (pos : Bool) (signed : Bool) (D : Nat) : Res Int :=
+  match tag with
+  | .sat => .ok (if pos then 2^D - 1 else if signed then -(2^D - 1) else 0)
+  | .thr => .throws pos
+  | .trp => .trap pos
+  | .und => .unreachable (if pos then "positive overflow" else "negative overflow")
+  | .nat => .ill "native tag: not modelled"
+
+/-- `numeric_limits<elastic_integer<d − k, N>>` with `k > d` (a negative digit count) shifts the limits of the
+narrowest storage right by `digits − (d − k)`: defined only while that count is below the promoted width -/
+def negDigitsOK (N : IntTy) (k d : Nat) : Bool :=
+  match storage N 0 with
+  | some r0 => decide (r0.digits + (k - d) < (promote r0).bits)
+  | none => false
+
+/-- conversion / assignment to `static_number<D, E, R, O, N>` (`scaled/convert_operator.h`:
+`static_cast<Result>(scale<SrcExp − DestExp>(from_value<Result>(from)))`): `from_value` first turns the source
+into `elastic_integer<SrcDigits, N>` — the destination's narrowest type: an overflow-checked conversion whose
+digit preconditions (`is_overflow_convert`) leave only one test active, a negative value of a signed source under an
+unsigned `N` —, then an exact rescaling when `E ≤ x.exp`, otherwise
 a division of the rounding_integer representation by `2^(E - x.exp)` (the rounding division of
 C08 in the storage type), followed by the overflow-checked narrowing of the digits -/
-def convert (c : Cfg) (D : Nat) (E : Int) (x : SNum) : Res SNum :=
-  if E ≤ x.exp then do
-    let a ← scaleUp x (x.exp - E).toNat
-    let v ← narrowDigits c D a.value
-    pure ⟨D, E, v⟩
+def convertT (c : Cfg) (N : IntTy) (D : Nat) (E : Int) (t : TNum) : Res TNum := do
+  let v0 ← (if N.signed = false ∧ t.n.signed = true ∧ t.x.value < 0 then
+      (if c.tag = .nat then .ill "native tag: not modelled" else reactTo c.tag false false t.x.digits)
+    else .ok t.x.value : Res Int)
+  let s : TNum := ⟨N, ⟨t.x.digits, t.x.exp, v0⟩⟩
+  if E ≤ s.x.exp then do
+    let a ← scaleUpT s (s.x.exp - E).toNat
+    let v ← narrowTo c N.signed D a.x.value
+    pure ⟨N, ⟨D, E, v⟩⟩
   else
-    let k := (E - x.exp).toNat
-    match Elastic.repTy x.digits narrowest with
-    | none => .ill "digits exceed the widest integer"
+    let k := (E - s.x.exp).toNat
+    match storage N s.x.digits with
+    | none => .ill "no storage for the digits"
     | some rep =>
       -- `scale<-k>` of an elastic_integer<Dx> yields elastic_integer<Dx - k>: constructing it from
       -- the quotient is itself an overflow-checked conversion into `Dx - k` digits
-      if k > x.digits then
-        -- elastic_integer with a negative digit count: its numeric_limits shift by a
-        -- negative count
-        .ub .shiftCount
+      -- an elastic_integer with a negative digit count `Dx - k`: its numeric_limits shift the limits of the
+      -- narrowest storage right by `digits − (Dx − k)`: undefined when that count reaches the promoted width
+      -- (always, for a narrowest type of 32 bits or more), otherwise the limits are `[0, 0]`
+      if k > s.x.digits ∧ negDigitsOK N k s.x.digits = false then .ub .shiftCount
       else
         -- the divisor `divisor_rep{1} << k` has its own type `elastic_integer<1 + k>::rep`
-        match Elastic.repTy (1 + k) narrowest with
-        | none => .ill "digits exceed the widest integer"
+        match storage N (1 + k) with
+        | none => .ill "no storage for the digits"
         | some drep => do
-        let q ← repOp c .div (rep, x.value) (drep, 2^k)
-        let mid ← narrowDigits c (x.digits - k) q.2
-        let v ← narrowDigits c D mid
-        pure ⟨D, E, v⟩
+        let q ← repOp c .div (rep, s.x.value) (drep, 2^k)
+        let mid ← narrowTo c N.signed (s.x.digits - k) q.2
+        let v ← narrowTo c N.signed D mid
+        pure ⟨N, ⟨D, E, v⟩⟩
+
+/-! ## built-in operands -/
+
+/-- `from_value<elastic_integer<_, N>, T>`: a built-in `T` becomes `elastic_integer<digits T, set_width_t<T, width N>>` -/
+def ofBuiltin (n : IntTy) (ty : IntTy) (v : Int) (e : Int) : TNum := ⟨⟨n.bits, ty.signed⟩, ⟨ty.digits, e, v⟩⟩
+
+/-- an operand of a binary operator / comparison -/
+inductive Opnd where
+  | stat (t : TNum)
+  | builtin (ty : IntTy) (v : Int)
+deriving Repr, DecidableEq
+
+def Opnd.exp : Opnd → Int
+  | .stat t => t.x.exp
+  | .builtin _ _ => 0
+
+/-- the operand at the exponent `exp − k`, when the two exponents differ: a static number through `scale<k>` of
+the elastic layer (more digits), a built-in integer through `scale<k>` **of its own type** (`value * 2^k` in the
+promoted type, also for `k = 0`: undefined when a signed product overflows, reduced modulo `2^width` when
+unsigned), then `from_value` -/
+def Opnd.align (n : IntTy) (o : Opnd) (k : Nat) : Res TNum :=
+  match o with
+  | .stat t => scaleUpT t k
+  | .builtin ty v =>
+    match scaleInt (k : Int) 2 (ty, v) with
+    | .ok r => .ok (ofBuiltin n r.1 r.2 (-(k : Int)))
+    | .ub u => .ub u
+    | _ => .ill "power_value: constant evaluation overflows"
+
+def Opnd.raw (n : IntTy) : Opnd → TNum
+  | .stat t => t
+  | .builtin ty v => ofBuiltin n ty v 0
+
+def Opnd.isBuiltinSigned : Opnd → Bool
+  | .builtin ty _ => ty.signed
+  | _ => false
+
+/-- the overflow layer's tests (`overflow/is_overflow.h`) when one operand is a built-in integer: the layer sees
+the built-in operand itself and the limits of the elastic result type.  For `+ −` the digit test is false; for `*`
+it is active when the other operand has one digit (a product of `digits T + 0` digits) and then compares
+`max / rhs` and `lowest / rhs` — **quotients of the elastic layer, rounded by the rounding tag** — with `lhs`; for `/`
+with a signed built-in dividend it fires on `rhs == −1 ∧ lhs == lowest(result)` — the symmetric lowest
+`−(2^digits T − 1)`, where the quotient `2^digits T − 1` would fit.  `some pos` = an overflow of that polarity. -/
+def mixedOverflow (c : Cfg) (op : BinOp) (s : Opnd) (a b : TNum) (d : Nat) (sg : Bool) : Res (Option Bool) :=
+  match op with
+  | .mul =>
+    if a.x.digits + b.x.digits > d then do
+      let nres : IntTy := ⟨max a.n.bits b.n.bits, sg⟩
+      let quo (lim : Int) : Res Int := (elBin (repOp c) .div ⟨d, nres, lim⟩ b.toE).map (·.value)
+      let lhs := a.x.value
+      let rhs := b.x.value
+      let pos ← (if lhs > 0 then (if rhs > 0 then (quo (2^d - 1)).map (fun q => decide (q < lhs)) else pure false)
+                 else (if rhs < 0 then (quo (2^d - 1)).map (fun q => decide (q > lhs)) else pure false) : Res Bool)
+      if pos then pure (some true) else do
+      let lowest : Int := if sg then -(2^d - 1 : Int) else 0
+      let neg ← (if lhs < 0 then (if rhs > 0 then (quo lowest).map (fun q => decide (q > lhs)) else pure false)
+                 else (if rhs < 0 ∧ rhs ≠ -1 then (quo lowest).map (fun q => decide (q < lhs)) else pure false) : Res Bool)
+      pure (if neg then some false else none)
+    else pure none
+  | .div =>
+    pure (if s.isBuiltinSigned && b.x.value == -1 && a.x.value == -(2^d - 1 : Int) then some true else none)
+  | _ => pure none
+
+/-- binary arithmetic where either operand may be a built-in integer; `n` is the narrowest type of the static
+operand (only its width matters).  `+ −` align the exponents only when they differ (`scaled_integer/operators.h`) -/
+def binOpO (c : Cfg) (n : IntTy) (op : BinOp) (s t : Opnd) : Res TNum :=
+  match op with
+  | .add | .sub =>
+    if s.exp = t.exp then do
+      let z ← elBin (repOp c) op (s.raw n).toE (t.raw n).toE
+      pure (ofE z s.exp)
+    else do
+      let e := min s.exp t.exp
+      let a ← s.align n (s.exp - e).toNat
+      let b ← t.align n (t.exp - e).toNat
+      let z ← elBin (repOp c) op a.toE b.toE
+      pure (ofE z e)
+  | .mul | .div =>
+    let a := s.raw n
+    let b := t.raw n
+    match Elastic.policy op a.x.digits a.n.signed b.x.digits b.n.signed with
+    | none => .ill "no elastic policy for this operator"
+    | some (d, sg) =>
+      let e := if op = .mul then a.x.exp + b.x.exp else a.x.exp - b.x.exp
+      match mixedOverflow c op s a b d sg with
+      | .ok (some pos) =>
+        if c.tag = .nat then .ill "native tag: not modelled"
+        else (reactTo c.tag pos sg d).map (fun v => ⟨⟨max a.n.bits b.n.bits, sg⟩, ⟨d, e, v⟩⟩)
+      | .ok none => binOpT c op a b
+      | .ub u => .ub u
+      | _ => .ill "unexpected"
+  | _ => .ill "operator outside the static model"
+
+/-- comparison with a built-in operand (`scaled_integer/operators.h`): the operand with the larger exponent is
+scaled to the smaller one -/
+def cmpO (n : IntTy) (op : CmpOp) (s t : Opnd) : Res Bool :=
+  if s.exp = t.exp then elCmp op (s.raw n).toE (t.raw n).toE
+  else do
+    let e := min s.exp t.exp
+    let a ← if s.exp = e then pure (s.raw n) else s.align n (s.exp - e).toNat
+    let b ← if t.exp = e then pure (t.raw n) else t.align n (t.exp - e).toNat
+    elCmp op a.toE b.toE
+
+/-! ## the instances for `Narrowest = int` -/
+
+def toE (x : SNum) : Elastic.ENum := ⟨x.digits, narrowest, x.value⟩
+
+def scaleUp (x : SNum) (k : Nat) : Res SNum := (scaleUpT ⟨narrowest, x⟩ k).map (·.x)
+
+/-- binary arithmetic on two static numbers -/
+def binOp (c : Cfg) (op : BinOp) (x y : SNum) : Res SNum := (binOpT c op ⟨narrowest, x⟩ ⟨narrowest, y⟩).map (·.x)
+
+def neg (x : SNum) : Res SNum := (negT ⟨narrowest, x⟩).map (·.x)
+
+def cmp (op : CmpOp) (x y : SNum) : Res Bool := cmpT op ⟨narrowest, x⟩ ⟨narrowest, y⟩
+
+def convert (c : Cfg) (D : Nat) (E : Int) (x : SNum) : Res SNum := (convertT c narrowest D E ⟨narrowest, x⟩).map (·.x)
 
 /-! ## shifts -/
 
@@ -175,8 +462,8 @@ def reactDigits (tag : OvTag) (pos : Bool) (D : Nat) : Res Int :=
 /-- `elastic_integer<D> OP n` for a run-time count (`elastic_integer/custom_operator.h`):
 `from_rep<lhs_type>(Operator{}(to_rep(lhs), rhs))` — the built-in shift of the storage type -/
 def elShift (op : BinOp) (D : Nat) (v k : Int) : Res Int :=
-  match Elastic.repTy D narrowest with
-  | none => .ill "digits exceed the widest integer"
+  match storage narrowest D with
+  | none => .ill "no storage for the digits"
   | some rep =>
     match cBin op (rep, v) (i32, k) with
     | .ok r => .ok (rep.wrap r.2)
@@ -185,7 +472,7 @@ def elShift (op : BinOp) (D : Nat) (v k : Int) : Res Int :=
 
 /-- unary minus of the `elastic_integer<D>` operand, by value -/
 def elNeg (D : Nat) (v : Int) : Res Int :=
-  match Elastic.neg ⟨D, narrowest, v⟩ with
+  match elNegE ⟨D, narrowest, v⟩ with
   | .ok z => .ok z.value
   | .ub u => .ub u
   | _ => .ill "digits exceed the widest integer"
@@ -269,7 +556,7 @@ def shiftConstInt (c : Cfg) (op : BinOp) (x : SNum) (k : Nat) : Res SNum :=
   match op with
   | .shl =>
     checkedShl (isOverflowShl false (x.digits + k) x.digits x.value k) c (x.digits + k) x.digits x.exp x.value k
-      (match Elastic.shlConst (toE x) k with
+      (match elShlConst (toE x) k with
        | .ok z => .ok ⟨z.digits, x.exp, z.value⟩
        | .ub u => .ub u
        | _ => .ill "digits exceed the widest integer")
@@ -277,7 +564,7 @@ def shiftConstInt (c : Cfg) (op : BinOp) (x : SNum) (k : Nat) : Res SNum :=
     if c.tag = .nat then .ill "native tag: not modelled"
     else if k > x.digits then .ill "negative digit count"
     else
-      match Elastic.shrConst (toE x) k with
+      match elShrConst (toE x) k with
       | .ok z => .ok ⟨z.digits, x.exp, z.value⟩
       | .ub u => .ub u
       | _ => .ill "digits exceed the widest integer"
